@@ -796,6 +796,16 @@ func (fi *FuncInfo) callTerm(v *ssa.Call) *Term {
 	if b, ok := c.Value.(*ssa.Builtin); ok {
 		switch b.Name() {
 		case "len", "cap":
+			// len(x[lo:hi]) = hi - lo
+			if sl, ok := c.Args[0].(*ssa.Slice); ok && b.Name() == "len" && sl.High != nil {
+				hi := fi.T(sl.High)
+				if sl.Low == nil {
+					return hi
+				}
+				if lo := fi.T(sl.Low); hi.Lin != nil && lo.Lin != nil {
+					return linAdd(hi, lo, -1)
+				}
+			}
 			return symTerm(b.Name() + "(" + fi.T(c.Args[0]).S + ")")
 		}
 	}
@@ -854,6 +864,15 @@ func cmpFormula(op token.Token, x, y *Term, integer bool) *Formula {
 			return eq0(d)
 		case token.NEQ:
 			return Not(eq0(d))
+		}
+	}
+	if x.S == y.S && !strings.HasPrefix(x.S, "(") {
+		// the same value on both sides (after normalisation typically "nil != nil" of an assigned constant)
+		switch op {
+		case token.EQL, token.LEQ, token.GEQ:
+			return TrueF
+		case token.NEQ, token.LSS, token.GTR:
+			return FalseF
 		}
 	}
 	switch op {
